@@ -20,7 +20,11 @@ class _Cexptrk_Potential_Function(object):
     local_symbol_table = cexprtk.Symbol_Table({}, add_constants = True)
     parameter_names = self._potential_form_tuple.signature.parameter_names
     for pn in parameter_names:
-      local_symbol_table.variables[pn] = 1.0
+      try:
+        local_symbol_table.variables[pn] = 1.0
+      except KeyError as e:
+        raise Potential_Form_Exception("parameter '{}' of potential-form '{}' cannot be used: {}".format(
+          pn, self._potential_form_tuple.signature.label, e.args[0] if e.args else e))
     return local_symbol_table
 
   def register_function(self, func):
